@@ -35,7 +35,16 @@ META = {
             "generated histories under small and default limits (counts, estimateSize = encoded size <= limit, "
             "stateless checkPopData, nothing already on the active chain, all three trees identical before/after) and "
             "the REAL next block carrying exactly the result: header, body and setState succeed on the same "
-            "instance, which then keeps going.",
+            "instance, which then keeps going. Selection as coded, with payload ids, on the relations model "
+            "(coq/Mempool/GenDefs.v, every height-sorted order of the relations, tree verdicts as oracles): "
+            "C12_selection_from_pool (only connected payloads of the pool, after any operation sequence), "
+            "C12_selection_valid (no id twice, context by ascending height with each block's predecessor in the tree or "
+            "earlier in the context, every VTB/ATV with its containing block / block of proof in the tree or the "
+            "returned context, nothing marked as on the active chain), C12_selection_fits, C12_sorted_order_exists, "
+            "C12_generate_pool_effect (tryConnectPayloads + cleanUp: no assertion, no payload appears), "
+            "C12_selection_example, and C12_selection_submission_order_refuted / C12_selection_equal_height_refuted "
+            "(the result is NOT a function of pool content and tree: rel.vtbs keeps the submission order under the VTB "
+            "limit; equal-height relations come in hash-map / std::sort order).",
     "note": "Trusted: Coq kernel, C++ harness and World interpreter. Stateful validity of the result "
             "is proved on the abstract machine only (exec deterministic; that the real commands form such a machine "
             "is C01/C04's) and observed on the implementation; sizes are abstract numbers in the "
